@@ -143,5 +143,6 @@ def main(prop, tier):
         # second sentence: cursor steps interleaved with writers on trees of any depth
         from props import p_conc
         chk.assumptions.append("concurrent part: sequentially consistent scheduler-driven executions, see C01")
+        p_conc.run_model_and_steps(chk, prop, tier, pkey="C10")
         p_conc.run_conc(chk, prop, tier)
     return chk.finish()
